@@ -265,6 +265,7 @@ class PointWorld(BaseWorld):
     def __init__(self, prop, cfg):
         super().__init__(prop, cfg)
         self.regions = set(cfg.get('regions', []))
+        self.zbuf = {}        # composition arrays a caller keeps and updates in place (by length)
         self.pk = vpackage(cfg['ids'], cfg['gamma'])
         tmo.settings.set_thermo(self.pk.thermo)
         self.streams = {}
@@ -336,6 +337,8 @@ class PointWorld(BaseWorld):
         q['value'] = self.gen_value(r, spec, ids, z)
         if r.random() < 0.35:
             q['entry'] = 'solve'      # the public solve_Ty / solve_Py / solve_Tx / solve_Px entry points
+        if r.random() < 0.3:
+            q['reuse_z'] = True       # the caller keeps ONE composition array and updates it in place between calls
         return q
 
     def gen_fault(self, r, nqueries):
@@ -551,14 +554,21 @@ class PointWorld(BaseWorld):
             v = m(q['value'], IDs=tuple(ids))
         else:
             zz = np.array(q['z'], float) if z is None else z
+            arg = zz.copy()
+            if q.get('reuse_z') and z is None and pk is self.pk:
+                buf = self.zbuf.get(len(zz))
+                if buf is None:
+                    buf = self.zbuf[len(zz)] = np.zeros(len(zz))
+                buf[:] = zz
+                arg = buf
             if q.get('entry') == 'solve':
                 m = getattr(obj, 'solve_' + {'T': 'P', 'P': 'T'}[q['spec']] + ('y' if q['kind'] == 'bubble' else 'x'))
-                val, comp = m(zz.copy(), q['value'])[:2]
+                val, comp = m(arg, q['value'])[:2]
                 if tuple(obj.IDs) != tuple(ids):
                     self.fail('ids', f'solver object lists chemicals {obj.IDs}, asked for {ids}')
                 T, P = (q['value'], val) if q['spec'] == 'T' else (val, q['value'])
                 return Res(T, P, comp, zz)
-            v = obj(zz.copy(), **kw)
+            v = obj(arg, **kw)
         comp = v.y if q['kind'] == 'bubble' else v.x
         if tuple(v.IDs) != tuple(ids):
             self.fail('ids', f'result lists chemicals {v.IDs}, asked for {ids}')
